@@ -1,4 +1,4 @@
-From SLU Require Import Consts ArgCheckModel ArgCheckProofs.
+From SLU Require Import Consts ArgCheckModel ArgCheckProofs ArgCheckGen ArgCheckTie.
 Require Import ZArith List Bool QArith.
 Import ListNotations.
 Local Open Scope Z_scope.
@@ -89,3 +89,23 @@ Theorem argcheck_no_effect :
   (forall p a, quiet (trsv_run p a)) /\ (forall p a, quiet (gemv_run p a)).
 Proof. exact argcheck_no_effect_proof. Qed.
 Print Assumptions argcheck_no_effect.
+
+(* ---- the tie by translation: src_*_check are the argument tests RE-TRANSLATED from the current C source on every run
+   (coq/ArgCheckGen.v, tools/gen_trans.py + tools/c2gal.py over the clang AST), in the four precisions; they compute
+   exactly what the model computes, so every theorem above is a theorem about what the source says now ---- *)
+Theorem c15_source_is_model :
+  (forall p a, src_gssv_check p a = gssv_check p a) /\ (forall p a, src_gstrs_check p a = gstrs_check p a) /\
+  (forall p a, src_gsrfs_check p a = gsrfs_check p a) /\ (forall p a, src_gscon_check p a = gscon_check p a) /\
+  (forall p A, src_gsequ_check p A = gsequ_check p A) /\ (forall p a, src_trsv_check p a = trsv_check p a) /\
+  (forall p a, src_gemv_check p a = gemv_check p a).
+Proof. exact (conj src_gssv_is_model (conj src_gstrs_is_model (conj src_gsrfs_is_model (conj src_gscon_is_model
+       (conj src_gsequ_is_model (conj src_trsv_is_model src_gemv_is_model)))))). Qed.
+Print Assumptions c15_source_is_model.
+
+Theorem c15_source_gscon_first_offender : forall p a, src_gscon_check p a = spec_info (doc_gscon p) a.
+Proof. exact src_gscon_first_offender_proof. Qed.
+Print Assumptions c15_source_gscon_first_offender.
+
+Theorem c15_source_gsequ_first_offender : forall p A, src_gsequ_check p A = spec_info (doc_gsequ p) A.
+Proof. exact src_gsequ_first_offender_proof. Qed.
+Print Assumptions c15_source_gsequ_first_offender.
